@@ -29,6 +29,26 @@ func init() {
 // doneBranchBlocks: blocks dominated by the edge on which a non-blocking select chose a Done() case.
 func doneBranchHeads(fn *ssa.Function) []*ssa.BasicBlock {
 	var out []*ssa.BasicBlock
+	// `if ctx.Err() != nil { … }`: the true edge is a done branch as well
+	allInstrs(fn, func(ins ssa.Instruction) {
+		ifs, ok := ins.(*ssa.If)
+		if !ok {
+			return
+		}
+		bo, ok := ifs.Cond.(*ssa.BinOp)
+		if !ok || (bo.Op != token.NEQ && bo.Op != token.EQL) || !isNilConst(bo.Y) {
+			return
+		}
+		c, ok := bo.X.(*ssa.Call)
+		if !ok || !c.Call.IsInvoke() || c.Call.Method.Name() != "Err" || !isContextType(c.Call.Value.Type()) {
+			return
+		}
+		if bo.Op == token.NEQ {
+			out = append(out, ifs.Block().Succs[0])
+		} else {
+			out = append(out, ifs.Block().Succs[1])
+		}
+	})
 	allInstrs(fn, func(ins ssa.Instruction) {
 		sel, ok := ins.(*ssa.Select)
 		if !ok {
